@@ -160,6 +160,7 @@ def main():
 
     results = run_deductive(prop, a.tier, a.jobs)
     violations, undecided, errors, known_hits = [], [], [], []
+    out_of_reach = []
     xfails = []
     all_obs = []
     canary_info = []
@@ -192,7 +193,12 @@ def main():
         if ob["status"] == "VACUOUS":
             errors.append(f"vacuous path {ob['name']}: {ob.get('reason')}")
             continue
-        if ob["status"] in ("UNDECIDED", "UNSUPPORTED"):
+        if ob["status"] == "UNSUPPORTED":
+            # the code under check uses a construct outside the verifier's reach: no obligation could be generated for
+            # this path; the property's bounded stand-in stands in for it (labelled bounded, never counted as proved)
+            out_of_reach.append(ob)
+            continue
+        if ob["status"] == "UNDECIDED":
             undecided.append(ob)
             continue
         # REFUTED
@@ -304,6 +310,9 @@ def main():
     level = prop.get("level", "other")
     if level == "proof" and (n_proved != n_ob or n_ob == 0):
         level = "other"
+    if out_of_reach and not rt_results:
+        undecided.extend(out_of_reach)          # nothing stands in for them
+        out_of_reach = []
     coverage = {
         "obligations": n_ob,
         "discharged": n_proved,
@@ -324,6 +333,7 @@ def main():
                          for k in ("regions", "premise_queries", "facts", "analyses")},
         "not_proved": [{"name": o["name"], "status": o["status"], "reason": o.get("reason"), "n": o.get("n")}
                        for o in all_obs if o["status"] != "PROVED"],
+        "out_of_reach": [{"name": o["name"], "reason": o.get("reason")} for o in out_of_reach],
         "known_findings_hit": [{"finding": kf["id"], "obligation": ob["name"]} for kf, ob in known_hits],
         "samples": [o["name"] + " : " + o["status"] + " by " + str(o.get("backend")) for o in all_obs[:12]],
         "bounded_standins": rt_results,
@@ -349,7 +359,7 @@ def main():
     for kid, (kf, names) in seen_kf.items():
         print(f"KNOWN-FINDING: property={pid} {kid}: {kf['what']} [{len(names)} obligation(s)/case(s), e.g. {names[0]}]")
     print(f"{pid}: {n_proved}/{n_ob} obligations proved ({backends}), {len(undecided)} undecided, "
-          f"{len(violations)} violations, {len(known_hits)} known; rt={[(r.get('name'), r.get('evaluations')) for r in rt_results]}; {wall:.1f}s")
+          f"{len(out_of_reach)} out of reach, {len(violations)} violations, {len(known_hits)} known; rt={[(r.get('name'), r.get('evaluations')) for r in rt_results]}; {wall:.1f}s")
     if a.verbose:
         for o in all_obs:
             print("   ", o["status"], o["name"], o.get("reason", ""))
@@ -362,6 +372,9 @@ def main():
         sys.exit(1)
     if errors:
         sys.exit(3)
+    for ob in out_of_reach:
+        print(f"OUT-OF-REACH property={pid} obligation={ob['name']} reason={ob.get('reason')} "
+              f"(no obligation generated; decided by the bounded stand-in only)")
     if undecided:
         for ob in undecided:
             print(f"UNDECIDED property={pid} obligation={ob['name']} reason={ob.get('reason')}")
